@@ -110,6 +110,33 @@ func runC18(c *Ctx) {
 				"QuoteCharacter reports the apostrophe as a string delimiter for "+strings.TrimSpace(bad)+": there it is the quote operator / part of a sized number, so ordinary code (\"8'hFF\", \"'foo\") opens a string that swallows the comments behind it")
 		}
 	}
+	// R18.21 block comments nest where the language says so: NestedComments answers yes for Swift, Kotlin, Dart and Haskell (a
+	// fact about the languages, kept here like the one of R18.18) - where it says no, an inner comment ends the outer one at the
+	// first end delimiter and the rest is lexed as code
+	if nc := p.Func(langPkg, "(Language).NestedComments"); nc != nil && len(nc.Params) == 1 {
+		nest := map[string]bool{"Swift": true, "Kotlin": true, "Dart": true, "Haskell": true}
+		nN, bad, und := 0, "", ""
+		for _, l := range langs {
+			if !nest[l.Name()] {
+				continue
+			}
+			res, err := ce.Eval(nc, []constant.Value{l.Val()})
+			if err != nil || len(res) != 1 || res[0].Kind() != constant.Bool {
+				und = l.Name()
+				continue
+			}
+			nN++
+			if !constant.BoolVal(res[0]) {
+				bad += l.Name() + " "
+			}
+		}
+		if und != "" {
+			c.R.Info("R18.21", "NestedComments for "+und, p.Pos(nc.Pos()), "not decided: the function could not be evaluated for this language")
+		} else {
+			c.R.Check(bad == "", "R18.21", "NestedComments: block comments nest in Swift, Kotlin, Dart and Haskell", p.Pos(nc.Pos()), fmt.Sprintf("%d languages evaluated", nN),
+				"NestedComments says that block comments do not nest in "+strings.TrimSpace(bad)+": a block comment inside a block comment ends the outer one early, and what is left of it is lexed as code")
+		}
+	}
 	defStyle := ""
 	image := map[string][]string{}
 	styleOf := map[string]string{}
@@ -475,7 +502,7 @@ func runC18(c *Ctx) {
 				}
 			}
 		}
-		c.R.Check(bad == "" , "R18.19", rd.Name()+": the line number advances at a line feed and nowhere else", p.Pos(rd.Pos()), fmt.Sprintf("%d increments of the line number, each under `r == '\\n'` only", nL),
+		c.R.Check(bad == "", "R18.19", rd.Name()+": the line number advances at a line feed and nowhere else", p.Pos(rd.Pos()), fmt.Sprintf("%d increments of the line number, each under `r == '\\n'` only", nL),
 			"the line number is also advanced under another test (at "+bad+"): lines are counted where there is no line feed (a carriage return, say), so the start and end lines of the comments are not the lines of the file")
 		c.R.RequireMin("R18.19", "increments of the line number in the read primitive", nL, 1)
 	}
